@@ -85,7 +85,7 @@ def run(ctx: core.Ctx):
         "hand-written model Model/Search.lean, tied to the code by running the unmodified search methods on synthetic excess tables",
         "thermal simulation = arbitrary oracle E (its own properties: C09-C11); scipy brentq = BrentSpec hypothesis",
     ]
-    ctx.assumptions += ["first-feasible theorem assumes: monotone sign pattern, strictly increasing counts, pairwise distinct excess values, len <= 2^max_iter, E(0,minH) > 0"]
+    ctx.assumptions += ["first-feasible theorem assumes: monotone sign pattern, strictly increasing counts, no excess exactly zero, len <= 2^max_iter, E(0,minH) > 0 (ties in the excess are allowed since the F32 repair)"]
     ctx.lean_prepare()
 
     rng = ctx.rng
